@@ -328,6 +328,79 @@ def dcm_log(chk, prog):
         return all_of(eq(L.T, -L, "log^T"), eq(fro, 2 * theta * theta, "|log R|_F^2"))
     chk.ob("LOG", f.ref, "log(R)^T == -log(R) and |log R|_F^2 == 2 t^2 (generic arm)", law, module=DCM, function="DCM.log", construct="matrix logarithm", line=f.node.lineno)
     band_rule(chk, f, "C10", 1e-3, "the logarithm must be correct for every rotation angle, including below 1e-3 rad")
+    log_arms(chk, prog, f, q, R)
+
+
+def log_arms(chk, prog, f, q, R, tol=1e-6):
+    """LOG.arm: every inequality-guarded arm of DCM.log (a small-angle series, a near-pi branch ...) must agree with the generic closed form
+    wherever its guard holds: the two extracted expressions are evaluated at rotations inside the arm, closest to its threshold first."""
+    import math
+    seen = []
+
+    def probe(c, it_):
+        if c.op in ("<", ">", "<=", ">="):
+            seen.append(c)
+            return False
+        return None
+    itp = Interp(prog, oracle=probe)
+    try:
+        L_gen = to_obj(itp.getattr(itp.make_obj(DCM + "::DCM", data=R, A=R), "log", None))
+    except Exception as e:
+        chk.error("LOG.arm: generic arm of DCM.log not analysable: %s" % e)
+        return
+    qn = [str(x) for x in q]
+    ax = (0.36, 0.48, 0.8)
+
+    def val_at(t):
+        vals = {qn[0]: math.cos(t / 2), qn[1]: math.sin(t / 2) * ax[0], qn[2]: math.sin(t / 2) * ax[1], qn[3]: math.sin(t / 2) * ax[2]}
+        return lambda at: vals[at.name]
+    n = 0
+    for k, c in enumerate(list(seen)):
+        try:
+            rhs = float(c.rhs.const())
+        except Exception:
+            rhs = None
+        # rotations for which this guard is true
+        ts = [10 ** (e / 4.0) for e in range(-32, 2)] + [math.pi - 10 ** (e / 4.0) for e in range(-32, 0)]
+        inside = []
+        for t in ts:
+            try:
+                l, r = P.evalf(c.lhs, val_at(t)), P.evalf(c.rhs, val_at(t))
+            except Exception:
+                continue
+            ok = {"<": l < r, "<=": l <= r, ">": l > r, ">=": l >= r}[c.op]
+            if ok and l == l:
+                inside.append((abs(l - r), t))
+        if not inside:
+            chk.record("LOG.arm", "%s::%s" % (f.ref, c), "guard is false for every rotation angle in (0, pi): the arm only serves exact limits")
+            continue
+        n += 1
+        samples = [t for _, t in sorted(inside)[:4]]
+
+        def law(k=k, c=c, samples=samples):
+            idx = [0]
+
+            def oracle(cc, it_):
+                if cc.op in ("<", ">", "<=", ">="):
+                    i = idx[0]
+                    idx[0] += 1
+                    return i == k
+                return None
+            it = Interp(prog, oracle=oracle)
+            L_arm = to_obj(it.getattr(it.make_obj(DCM + "::DCM", data=R, A=R), "log", None))
+            for t in samples:
+                num = den = 0.0
+                for u, v in zip(L_arm.flat, L_gen.flat):
+                    x, y = P.evalf(P._to_rat(u) if not isinstance(u, P.Rat) else u, val_at(t)), P.evalf(P._to_rat(v) if not isinstance(v, P.Rat) else v, val_at(t))
+                    num += (x - y) ** 2
+                    den += y ** 2
+                rel = math.sqrt(num / den) if den else (0.0 if num == 0 else float("inf"))
+                if not (rel <= tol or math.sqrt(num) <= 1e-7):     # 1e-7 rad absolute: the float resolution of the trace near the identity
+                    return (False, "at rotation angle %.4g rad (inside the arm taken when %s) the arm's closed form differs from the generic logarithm by %.3g (relative, Frobenius)" % (t, c, rel), None)
+            return True
+        chk.ob("LOG.arm", "%s::%s" % (f.ref, c), "the arm taken when `%s` agrees with theta/(2 sin theta) (R^T - R) to %g wherever the guard holds" % (c, tol), law,
+               module=DCM, function="DCM.log", construct="arm agreement [%s %s const]" % (c.op, "lhs"), line=f.node.lineno)
+    chk.counts["LOG.arms-with-interior"] = n
 
 
 def band_rule(chk, f, pid, domain_low, why):
